@@ -398,9 +398,7 @@ ParseHostname(hn) ==
 ParseHost(host) ==
   IF LastIs(host, RBR) THEN LET r == ParseHostname(host) IN [ok |-> r.ok, hostname |-> IF r.ok = "ok" THEN r.v ELSE <<>>, port |-> 0]
   ELSE LET rp == RPartition(host, COLON) IN
-       IF rp[2] /\ Len(rp[3]) = 0 THEN          \* "host:" - an empty port is the default port (RFC 3986 3.2.3)
-          LET r == ParseHostname(rp[1]) IN [ok |-> r.ok, hostname |-> IF r.ok = "ok" THEN r.v ELSE <<>>, port |-> 0]
-       ELSE IF rp[2] THEN
+       IF rp[2] THEN
           LET pi == PyInt(rp[3], 10) IN
           IF ~pi.ok \/ (pi.neg /\ ~IsZeroN(pi.n)) \/ pi.n.ov \/ pi.n.b[3] # 0 \/ pi.n.b[4] # 0
           THEN [ok |-> "err", hostname |-> <<>>, port |-> 0]
@@ -757,8 +755,7 @@ Variants(b) ==
      ELSE
      V("case", Render([b EXCEPT !.sc = UpperS(@), !.ho = UpperS(@)]))
      \o (IF b.pk = "none" /\ Len(b.dp) > 0 /\ Has(b.sc, COLON) THEN   \* (without a scheme, "h:80" reads as scheme "h")
-         V("default-port", Render([b EXCEPT !.po = <<COLON>> \o b.dp])) \o V("empty-port", Render([b EXCEPT !.po = <<COLON>>]))
-         ELSE <<>>)
+         V("default-port", Render([b EXCEPT !.po = <<COLON>> \o b.dp])) ELSE <<>>)
      \o (IF StartsWith(b.pa, <<SLASH>>)
          THEN V("dot-segment", Render([b EXCEPT !.pa = tDOTSEG \o @])) \o V("dotdot-segment", Render([b EXCEPT !.pa = tDDSEG \o @]))
          ELSE <<>>)
